@@ -382,9 +382,42 @@ func (w *World) Invoke(h util.Uint160, signers []neotest.Signer, method string, 
 	w.E.AddNewBlock(w.T, tx)
 	aer := w.E.GetTxExecResult(w.T, tx.Hash())
 	if aer.VMState != vmstate.Halt {
-		hpanic("setup invoke %s: %s", method, aer.FaultException)
+		var ss []string
+		for _, sg := range signers {
+			ss = append(ss, w.signerName(sg.ScriptHash()))
+		}
+		panic(SetupRefused{Contract: w.NameOf(h), Method: method, Signers: ss, Fault: aer.FaultException, N: w.N})
 	}
 	return aer.Stack
+}
+
+// SetupRefused: a preparation step (a call carrying exactly the witnesses its documentation
+// requires) was refused by the contract. A harness error everywhere except in C03, where
+// "the same invocation with exactly the required witnesses succeeds" is the property itself.
+type SetupRefused struct {
+	Contract, Method string
+	Signers          []string
+	Fault            string
+	N                int
+}
+
+func (e SetupRefused) Error() string {
+	return fmt.Sprintf("harness: setup invoke %s.%s by %v (committee of %d): %s", e.Contract, e.Method, e.Signers, e.N, e.Fault)
+}
+
+func (w *World) signerName(h util.Uint160) string {
+	switch h {
+	case w.Alpha:
+		return "Alphabet 2/3+1 multisig"
+	case w.Comm:
+		return "committee majority multisig"
+	}
+	for n, a := range w.Accts {
+		if a.Hash == h {
+			return n
+		}
+	}
+	return h.StringLE()[:8]
 }
 
 // AlphaSigners is the signer list for a setup call that needs the Alphabet witness.
